@@ -241,7 +241,7 @@ def run_check(prop, tier, verif_seed, replay_file=None, budget_override=None):
         step = max(1, len(ok_recs) // nsel)
         sel = ok_recs[::step][:nsel]
         sout = os.path.join(rundir, "selftest.jsonl")
-        env2 = worker_env(hashseed="4242", extra={"NUMBA_NUM_THREADS": "3"})
+        env2 = worker_env(hashseed="4242")
         rc, outp = run_wait(
             {"mode": "explore", "property": prop, "tier": tier, "verif_seed": verif_seed,
              "indices": [r["index"] for r in sel], "wall_s": 3600, "out": sout},
